@@ -221,11 +221,13 @@ SigOKSlot(g, item) == g.ret = "tok" /\ item.id \in g.validby
 
 \* any token descriptor: forged, from a slot (tk: slot -> generate result), or opaque bytes
 NoParse == [status |-> "any", alg |-> "none", spelling |-> NONE, hdr |-> EmptyMap, clm |-> EmptyMap, sigEmpty |-> TRUE]
+\* a slot holds either a generate result or a forged token kept for re-use ([ret |-> "forged", td])
 ParseTokIn(tk, td) == CASE td.src = "forge" -> ParseForge(td)
-                        [] td.src = "slot" -> ParseSlot(tk[td.slot])
+                        [] td.src = "slot" -> IF tk[td.slot].ret = "forged" THEN ParseForge(tk[td.slot].td) ELSE ParseSlot(tk[td.slot])
                         [] OTHER -> NoParse
 SigOKIn(tk, td, item) == CASE td.src = "forge" -> item.id # -1 /\ SigOKForge(td, item.kd)
-                           [] td.src = "slot" -> SigOKSlot(tk[td.slot], item)
+                           [] td.src = "slot" -> IF tk[td.slot].ret = "forged" THEN item.id # -1 /\ SigOKForge(tk[td.slot].td, item.kd)
+                                                 ELSE SigOKSlot(tk[td.slot], item)
                            [] OTHER -> FALSE
 
 (***************************************************************************)
@@ -576,6 +578,7 @@ Generate(b, slot, g, err, msg) ==
   /\ builders' = [builders EXCEPT ![b].err = err, ![b].msg = msg]
   /\ toks' = IF slot \in SlotIds THEN [toks EXCEPT ![slot] = g] ELSE toks
   /\ UNCHANGED <<now, ops, rings, checkers, nextId>>
+Forge(slot, td) == toks' = [toks EXCEPT ![slot] = [ret |-> "forged", td |-> td]] /\ UNCHANGED <<now, ops, rings, builders, checkers, nextId>>
 CErrClear(c) == checkers' = [checkers EXCEPT ![c].err = 0, ![c].msg = 0] /\ UNCHANGED <<now, ops, rings, builders, toks, nextId>>
 BErrClear(b) == builders' = [builders EXCEPT ![b].err = 0, ![b].msg = 0] /\ UNCHANGED <<now, ops, rings, checkers, toks, nextId>>
 =============================================================================
